@@ -191,6 +191,40 @@ class Hdr(ComplexModel):
     seq = Integer
 
 
+class Hdr2(ComplexModel):
+    __namespace__ = TNS
+    trace = Unicode
+
+
+class Mix(ComplexModel):
+    """a mixin: its fields are folded into the class that lists it, after the inherited ones"""
+    __mixin__ = True
+    m1 = Integer
+    m2 = Unicode
+
+
+class Renamed(ComplexModel):
+    """members that travel under another name (sub_name); sub_ns is left to C06.sub_ns (open finding: the schema
+    generator ignores it)"""
+    __namespace__ = TNS
+    plain = Integer
+    alias = Unicode(sub_name='wireName')
+    far = Integer(sub_name='farName')
+    many = Unicode(sub_name='item', max_occurs='unbounded')
+
+
+class RenamedSub(Renamed, Mix):
+    __namespace__ = TNS
+    own = Integer(sub_name='ownWire')
+    nested = Renamed
+
+
+def renamed_values():
+    inner = Renamed(plain=1, alias='a', far=2, many=['x', 'y'])
+    return [RenamedSub(plain=3, alias='b', far=4, many=['p'], m1=5, m2='mm', own=6, nested=inner),
+            RenamedSub(alias='only-alias'), RenamedSub(own=0, nested=Renamed(far=0)), RenamedSub()]
+
+
 PRIMS = [('i', Integer), ('u', Unicode), ('d', Decimal), ('b', Boolean), ('f', Double), ('t', DateTime), ('a', Date),
          ('y', ByteArray), ('r', Duration), ('z', Uuid)]
 
@@ -241,6 +275,17 @@ def _services(got):
             got.append(('prims', (i, u, d, b, f, t, a, y, r, z), ctx.in_header))
             ctx.out_header = ctx.in_header
             return i, u, d, b, f, t, a, y, r, z
+
+        @rpc(Integer, _returns=ptypes)
+        def produce(ctx, which):
+            # values built by the function itself (several byte chunks, not what a decoder delivered)
+            got.append(('produce', (which,), ctx.in_header))
+            return tuple(PRIM_VALUES[which][k] for k, _ in PRIMS)
+
+        @rpc(RenamedSub, _returns=RenamedSub)
+        def renamed(ctx, r):
+            got.append(('renamed', (r,), ctx.in_header))
+            return r
 
         @rpc(Outer, _returns=Outer)
         def struct(ctx, o):
@@ -298,9 +343,13 @@ def _mk_roundtrip(family, validator):
         inp, outp = _proto(family, validator)
         app = Application([_services(got)], TNS, name='VApp', in_protocol=inp, out_protocol=outp)
         wsgi = WsgiApplication(app)
-        meth = c.choose(['prims', 'struct', 'arrays', 'nothing', 'bare', 'outbare', 'shared'], 'method')
+        meth = c.choose(['prims', 'struct', 'arrays', 'nothing', 'bare', 'outbare', 'shared', 'produce', 'renamed'], 'method')
         d = app.interface.service_method_map['{%s}%s' % (TNS, meth)][0]
-        if meth == 'prims':
+        if meth == 'renamed':
+            args = [renamed_values()[c.choose([0, 1, 2, 3], 'values')]]
+        elif meth == 'produce':
+            args = [c.choose(list(range(len(PRIM_VALUES))), 'values')]
+        elif meth == 'prims':
             vals = PRIM_VALUES[c.choose(list(range(len(PRIM_VALUES))), 'values')]
             args = [vals[k] for k, _ in PRIMS]
         elif meth in ('struct', 'bare'):
@@ -402,8 +451,14 @@ def _mk_roundtrip(family, validator):
             if meth == 'shared':
                 o = _shared()
                 rets = [o, [o.inner] * 3]
+            if meth == 'produce':
+                rets = [PRIM_VALUES[args[0]][k] for k, _ in PRIMS]
             for (k, t), ret in zip(out_ti.items(), rets):
-                dec = xmlref.decode_from(rmsg, t, k, TNS)
+                try:
+                    dec = xmlref.decode_from(rmsg, t, k, TNS)
+                except Exception as e:
+                    c.check('response_denotes_returned_value', False, detail=(k, repr(e), etree.tostring(rmsg)[:300]))
+                    continue
                 c.check('response_denotes_returned_value', xmlref.norm(t, dec) == xmlref.norm(t, ret),
                         detail=(k, xmlref.norm(t, dec), xmlref.norm(t, ret), etree.tostring(rmsg)[:300]))
     return ob
